@@ -79,6 +79,8 @@ type Case struct {
 	Method   string // "" = POST
 	PresetCT string // a Content-Type header set by the params writer
 	Debug    bool   // Runtime.Debug = true (with a silent logger)
+	DefAuth  bool   // Runtime.DefaultAuthentication is a body-inspecting writer (calls GetBody K times)
+	CSVSkip  int    // > 0: the text/csv producer is runtime.CSVProducer(runtime.WithCSVSkipLines(n))
 	Media    string
 	Payload  Payload
 	Fields   []KV
@@ -110,7 +112,7 @@ func (c Case) JSON() M {
 	if method == "" {
 		method = "POST"
 	}
-	return M{"media": c.Media, "method": method, "presetct": c.PresetCT, "debug": c.Debug,
+	return M{"media": c.Media, "method": method, "presetct": c.PresetCT, "debug": c.Debug, "defauth": c.DefAuth, "csvskip": c.CSVSkip,
 		"payload": M{"kind": c.Payload.Kind, "vkind": c.Payload.VKind, "len": c.Payload.Len, "seed": c.Payload.Seed, "chunk": c.Payload.Chunk,
 			"fail": c.Payload.Fail, "fail_at": c.Payload.FailAt},
 		"fields": fields, "files": files, "auth": c.Auth, "k": c.K, "via": c.Via}
@@ -166,6 +168,7 @@ func caseFrom(d M) Case {
 	}
 	c.Auth, c.K, c.Via = drv.Bool(d["auth"]), drv.Int(d["k"]), drv.Str(d["via"])
 	c.Method, c.PresetCT, c.Debug = drv.Str(d["method"]), drv.Str(d["presetct"]), drv.Bool(d["debug"])
+	c.DefAuth, c.CSVSkip = drv.Bool(d["defauth"]), drv.Int(d["csvskip"])
 	return c
 }
 
@@ -329,7 +332,11 @@ func mkValue(p Payload) any {
 	case "xml":
 		return xmlDoc{A: string(txt), N: p.Seed}
 	case "csv":
-		return [][]string{{"a", "b"}, {string(txt), fmt.Sprint(p.Seed)}}
+		return [][]string{{"a", "b"}, {string(txt), fmt.Sprint(p.Seed)}, {"x", "y"}}
+	case "csv-string":
+		return fmt.Sprintf("a,b\nq%d,r\nx,y\n", p.Seed)
+	case "csv-bytes":
+		return []byte(fmt.Sprintf("a,b\nq%d,r\nx,y\n", p.Seed))
 	}
 	return string(txt)
 }
@@ -392,6 +399,7 @@ type prepared struct {
 	rec             *recorder
 	supplied        M
 	authSaw         []string
+	defSaw          []string
 	producersCalled []string
 	produced        []byte
 	toRemove        []string
@@ -400,9 +408,27 @@ type prepared struct {
 }
 
 func prepare(cs Case) *prepared {
-	p := &prepared{cs: cs, rec: &recorder{}, authSaw: []string{}}
+	p := &prepared{cs: cs, rec: &recorder{}, authSaw: []string{}, defSaw: []string{}}
 	rt := client.New("h:1", "/api", []string{"http"})
 	p.rt = rt
+	if cs.CSVSkip > 0 {
+		// an option-carrying codec, as an application registers it
+		rt.Producers[runtime.CSVMime] = runtime.CSVProducer(runtime.WithCSVSkipLines(cs.CSVSkip))
+	}
+	p.supplied = M{"payload": "", "ref": "", "files": [][]string{}}
+	if cs.Payload.Kind == "value" {
+		// THE encoding of the value by the registered producer instance: a reference run before the request
+		if pr, ok := rt.Producers[cs.Media]; ok {
+			var ref bytes.Buffer
+			func() {
+				defer func() { _ = recover() }()
+				if err := pr.Produce(&ref, mkValue(cs.Payload)); err != nil {
+					ref.WriteString("error: " + err.Error())
+				}
+			}()
+			p.supplied["ref"] = sha(ref.Bytes())
+		}
+	}
 	// every registered producer is wrapped so that the call and its output are observed
 	for mt, pr := range rt.Producers {
 		mt, pr := mt, pr
@@ -414,7 +440,6 @@ func prepare(cs Case) *prepared {
 			return err
 		})
 	}
-	p.supplied = M{"payload": "", "files": [][]string{}}
 	var payload any
 	switch cs.Payload.Kind {
 	case "value":
@@ -529,6 +554,14 @@ func prepare(cs Case) *prepared {
 			return nil
 		})
 	}
+	if cs.DefAuth {
+		rt.DefaultAuthentication = runtime.ClientAuthInfoWriterFunc(func(r runtime.ClientRequest, _ strfmt.Registry) error {
+			for i := 0; i < cs.K; i++ {
+				p.defSaw = append(p.defSaw, sha(r.GetBody()))
+			}
+			return nil
+		})
+	}
 	method := cs.Method
 	if method == "" {
 		method = http.MethodPost
@@ -596,7 +629,7 @@ func (p *prepared) event(idx int) M {
 	if p.cs.Payload.Kind == "value" {
 		p.supplied["payload"] = sha(p.produced)
 	}
-	ev := M{"req": idx, "err": p.callErr != nil, "panic": p.panicked, "supplied": p.supplied, "auth_saw": p.authSaw,
+	ev := M{"req": idx, "err": p.callErr != nil, "panic": p.panicked, "supplied": p.supplied, "auth_saw": p.authSaw, "def_saw": p.defSaw,
 		"producers": trace.S(p.producersCalled), "body_len": len(p.rec.body), "body_sha": sha(p.rec.body),
 		"ct": ascii(p.rec.hdr.Get("Content-Type")), "ctmedia": "", "boundary": false, "kind": "bytes",
 		"raw": []int{}, "pairs": []M{}, "parts": []M{}, "payload": []string{}}
@@ -726,7 +759,7 @@ func parseMultipart(body []byte, boundary string) (pairs, parts []M, err error) 
 // a file part, a form with a value needing escapes or several values, a streaming payload, or
 // an auth writer that looks at the body.
 func nontrivial(c Case) bool {
-	if len(c.Files) > 0 || (c.Auth && c.K > 0) {
+	if len(c.Files) > 0 || ((c.Auth || c.DefAuth) && c.K > 0) {
 		return true
 	}
 	n := 0
@@ -1008,6 +1041,54 @@ func generate(c *drv.Ctx) {
 			}
 		}
 	}
+	// (iv-g) the body-inspecting writer as Runtime.DefaultAuthentication (operation without AuthInfo), and both set (the operation's wins)
+	for _, place := range []string{"default", "both"} {
+		var cases []Case
+		for _, p := range []Payload{{Kind: "value", VKind: "json-map"}, {Kind: "value", VKind: "text"}, {Kind: "reader", VKind: "chunked", Chunk: 7},
+			{Kind: "readcloser", VKind: "chunked"}, {Kind: "reader", VKind: "bytesbuffer"}, {Kind: "none"}} {
+			seed++
+			p.Len, p.Seed = 700, seed
+			media := "application/octet-stream"
+			switch p.VKind {
+			case "json-map":
+				media = mJSON
+			case "text":
+				media = "text/plain"
+			}
+			cases = append(cases, Case{Media: media, Payload: p})
+		}
+		for _, media := range []string{mForm, mMulti} {
+			cases = append(cases, Case{Media: media, Fields: []KV{{"k", []string{"v", "a b"}}}})
+			seed++
+			cases = append(cases, Case{Media: media, Fields: []KV{{"k", []string{"v"}}},
+				Files: []FileField{{"file", []Item{{Name: "a.txt", Len: 900, Head: "text", Src: "reader", Seed: seed}, plain("b.bin", "application/x-b")}}}})
+		}
+		for _, cs := range cases {
+			for k := 0; k <= 3; k++ {
+				for _, via := range []string{"create", "submit"} {
+					cs := cs
+					cs.DefAuth, cs.Auth, cs.K, cs.Via = true, place == "both", k, via
+					emit(cs)
+				}
+			}
+		}
+	}
+	// (iv-h) an option-carrying codec in the producer registry: CSV with skipped lines; the body is THE encoding of the value by
+	// that producer instance (reference encoding made with the same instance before the request)
+	for _, skip := range []int{0, 1, 2} {
+		for _, vk := range []string{"csv", "csv-string", "csv-bytes"} {
+			for k := -1; k <= 1; k++ {
+				for _, via := range []string{"create", "submit"} {
+					seed++
+					cs := Case{Media: "text/csv", CSVSkip: skip, Payload: Payload{Kind: "value", VKind: vk, Len: 20, Seed: seed}, Via: via}
+					if k >= 0 {
+						cs.Auth, cs.K = true, k
+					}
+					emit(cs)
+				}
+			}
+		}
+	}
 	// (iv-c) uploads overlapping in time: all requests of a batch are built before the first is sent (single P, then all Ps),
 	// or submitted concurrently; every file without declared type, distinct contents
 	mkUpload := func(i, l int, declared string) Case {
@@ -1056,6 +1137,10 @@ func randomCase(c *drv.Ctx) Case {
 	r := c.Rng
 	cs := Case{Via: []string{"create", "submit"}[r.Intn(2)]}
 	cs.Debug = cs.Via == "submit" && r.Intn(4) == 0
+	cs.DefAuth = r.Intn(4) == 0
+	if cs.DefAuth {
+		cs.K = r.Intn(4)
+	}
 	if r.Intn(3) > 0 {
 		cs.Auth, cs.K = true, r.Intn(4)
 	}
